@@ -379,7 +379,8 @@ func (r *Report) finish() int {
 				// remaining clauses say cannot be trusted either way
 				// ... unless the refutation replays on the real code: a failing input is a violation whatever the state
 				// of the contracts
-				if rr := r.replay(o, sr); !rr.Confirmed {
+				// (the must-fail self-test runs its children without replays: there the failure is taken as it stands)
+				if rr := r.replay(o, sr); !rr.Confirmed && os.Getenv("VERIF_SELFTEST_CHILD") == "" {
 					lines = append(lines, fmt.Sprintf("note: %s fails, but part of the contract of its function was left out as out of date and no failing input was found: not counted", sr.Name))
 					staleUncounted++
 					continue
